@@ -15,7 +15,7 @@ use std::time::{Duration, Instant};
 use vcore::drive::sample_values;
 use vcore::rt::{self, Acc, Args, Report};
 
-const RULE: &str = "A case = (mode: stripping via NO_COLOR=1 | pass-through via CLICOLOR_FORCE=1, stream: stdout | stderr, API: print!/eprint!, println!/eprintln!, write!, writeln!, write_all, threads 2..16, prints per thread, fragments per print 1..6, gate position). Each print emits one record <tid:seq|f1..fk|tid:seq> built from k {} arguments (each wrapped in SGR codes) and literal pieces. In gated cases one fragment is a Display that, in the middle of the call, wakes a contender thread which performs a complete print of its own, and waits until the contender finished or 8 ms passed. Oracle: the bytes read from the pipe parse as a sequence of complete records whose payload is the expected (stripped or verbatim) text; per thread the sequence numbers are complete and increasing. Register: reader's (c1, value, c2) windows against one writer's published history; last-writer-wins after joins. Large-record cases: the same records with a first fragment padded to 64..200 KiB (one letter per thread). Non-trivial = a gated print during which the contender was really started (measured in the child), distinct by (case, print); for large-record cases every record counts.";
+const RULE: &str = "A case = (mode: stripping via NO_COLOR=1 | pass-through via CLICOLOR_FORCE=1, stream: stdout | stderr, API: print!/eprint!, println!/eprintln!, write!, writeln!, write_all, threads 2..16, prints per thread, fragments per print 1..6, gate position). Each print emits one record <tid:seq|f1..fk|tid:seq> built from k {} arguments (each wrapped in SGR codes) and literal pieces. In gated cases one fragment is a Display that, in the middle of the call, wakes a contender thread which performs a complete print of its own, and waits until the contender finished or 8 ms passed. Oracle: the bytes read from the pipe parse as a sequence of complete records whose payload is the expected (stripped or verbatim) text; per thread the sequence numbers are complete and increasing. Register: reader's (c1, value, c2) windows against one writer's published history; last-writer-wins after joins. Large-record cases: the same records with a first fragment padded to 64..200 KiB (one letter per thread), half of them - and further cases of 1.6..9 KB - with one newline inside the padding (bytes after a line end within one call). Non-trivial = a gated print during which the contender was really started (measured in the child), distinct by (case, print); for large-record cases every record counts.";
 
 #[derive(Clone, Copy, Debug, PartialEq, Eq, Serialize, Deserialize)]
 enum Api {
@@ -44,6 +44,11 @@ struct Case {
     /// extra length of the first fragment (records far larger than any internal buffer)
     #[serde(default)]
     pad: usize,
+    /// the padding holds one newline after its first third: the record continues for thousands of
+    /// bytes after a line end (what a line-buffered standard stream flushes early), and - for the
+    /// APIs that add none - does not end in a newline
+    #[serde(default)]
+    pad_nl: bool,
     /// run the child built against anstream's `test` feature (capture-aware print macros)
     #[serde(default)]
     test_feature: bool,
@@ -52,7 +57,12 @@ struct Case {
 /// the padding of fragment 0: one letter per thread, so that a foreign piece inside it is visible
 fn padding(case: &Case, tid: usize, i: usize) -> String {
     if i == 0 && case.pad > 0 {
-        ((b'A' + (tid % 26) as u8) as char).to_string().repeat(case.pad)
+        let letter = ((b'A' + (tid % 26) as u8) as char).to_string();
+        if case.pad_nl {
+            format!("{}\n{}", letter.repeat(case.pad / 3), letter.repeat(case.pad - case.pad / 3))
+        } else {
+            letter.repeat(case.pad)
+        }
     } else {
         String::new()
     }
@@ -422,6 +432,7 @@ fn arb_case(gated: bool) -> impl Strategy<Value = Case> {
             gated: if gated { 5 } else { 0 },
             gate_pos,
             pad: 0,
+            pad_nl: false,
             test_feature: false,
         })
 }
@@ -439,6 +450,7 @@ fn arb_carry_case(gated: bool) -> impl Strategy<Value = Case> {
         gated: if gated { 6 } else { 0 },
         gate_pos,
         pad: 0,
+        pad_nl: false,
         test_feature: false,
     })
 }
@@ -451,9 +463,14 @@ fn arb_large_case() -> impl Strategy<Value = Case> {
         prop_oneof![2 => Just(Api::WriteAll), 1 => Just(Api::Print), 1 => Just(Api::Println), 1 => Just(Api::Write), 1 => Just(Api::Writeln)],
         2usize..=6,
         1usize..=3,
-        prop::sample::select(vec![65_400usize, 65_536, 66_000, 131_072, 140_000, 200_000]),
+        prop::sample::select(vec![1_600usize, 3_000, 9_000, 65_400, 65_536, 66_000, 131_072, 140_000, 200_000]),
+        any::<bool>(),
     )
-        .prop_map(|(strip, stderr, api, threads, fragments, pad)| Case { strip, stderr, api, threads, prints: 10, fragments, gated: 0, gate_pos: 0, pad, test_feature: false })
+        .prop_map(|(strip, stderr, api, threads, fragments, pad, nl)| {
+            // the short paddings exist for the line-end shape only
+            let pad_nl = nl || pad < 60_000;
+            Case { strip, stderr, api, threads, prints: if pad < 60_000 { 60 } else { 10 }, fragments, gated: 0, gate_pos: 0, pad, pad_nl, test_feature: false }
+        })
 }
 
 // ---- register
@@ -649,11 +666,23 @@ fn run(args: &Args, rep: &mut Report) {
         .collect();
     let mut carry_cases = sample_values(rt::derive_seed(args.seed, "carry-gated", 0), tier.pick(40, 400), &arb_carry_case(true));
     carry_cases.extend(sample_values(rt::derive_seed(args.seed, "carry-stress", 0), tier.pick(12, 100), &arb_carry_case(false)));
-    let large_cases = sample_values(rt::derive_seed(args.seed, "large", 0), tier.pick(24, 240), &arb_large_case());
+    let large_cases = sample_values(rt::derive_seed(args.seed, "large", 0), tier.pick(36, 360), &arb_large_case());
+    // many short calls whose bytes continue after a line end: the window between two partial
+    // writes of a line-buffered stream is narrow, so this family trades size for repetition
+    let mut line_end_cases = vec![];
+    for (api, strip, stderr) in [
+        (Api::WriteAll, true, false), (Api::WriteAll, false, false), (Api::WriteAll, true, true), (Api::WriteAll, false, true),
+        (Api::Print, true, false), (Api::Write, true, false), (Api::Write, false, false), (Api::Println, true, false),
+    ] {
+        for pad in tier.pick(vec![3_000usize], vec![1_600, 3_000, 9_000]) {
+            line_end_cases.push(Case { strip, stderr, api, threads: 4, prints: tier.pick(1_500, 4_000), fragments: 2, gated: 0, gate_pos: 0, pad, pad_nl: true, test_feature: false });
+        }
+    }
     for (name, cases, bound) in [
+        ("line-end-stress", line_end_cases, "write_all / print! / write! / println! x {stripping, pass-through} x {stdout, stderr}: 4 threads x 1500 (thorough: 4000) calls of a few KB each, every record with thousands of bytes after an interior line end, no gate"),
         ("gated-prints", gated_cases, "generated cases with 5 gated prints each (2..4 threads + contender)"),
         ("free-running-stress", stress_cases, "generated cases with 2..16 threads x 400 prints, no gate"),
-        ("large-records", large_cases, "generated cases with 2..6 threads x 10 prints of 64..200 KiB each (one-letter-per-thread padding), all APIs, no gate"),
+        ("large-records", large_cases, "generated cases with 2..6 threads x 10 prints of 64..200 KiB each (one-letter-per-thread padding; in half of them with one line end after the first third, so that thousands of bytes follow a newline inside one call), or x 60 prints of 1.6..9 KB of that shape, all APIs, no gate"),
         ("carried-state", carry_cases, "one long-lived stream per thread, formatted writes that alternately end and begin inside an escape sequence (stripping mode): gated cases (6 gated prints) and free-running stress (2..8 threads x 400 prints)"),
         ("test-feature-build", tf_cases, "print!/println!/eprint!/eprintln! in a child built against anstream with its `test` feature (capture-aware branch of the macros): 2..16 threads x 400 prints, some with 70 KB records, no gate"),
     ] {
